@@ -256,6 +256,8 @@ contract(
         ("other_columns", "forall(0, len(result.data), lambda k: result.data.chromosome[k] == self.data.chromosome[k] and "
                           "result.data.start[k] == self.data.start[k] and result.data.end[k] == self.data.end[k] and "
                           "result.data.gene[k] == self.data.gene[k])"),
+        # the caller may go on to add columns to / drop rows from the result: it must never be the receiver itself (C10)
+        ("fresh_result", "result is not self and result.data is not self.data"),
     ],
     ghost=dict(frame_exempt_keys=("chr_x", "chr_y")),
     props=("C15", "C10"),
